@@ -154,6 +154,9 @@ fn classify_kind(plan: &Plan, v: &Violation) -> String {
         "clock_divergence".into()
     } else if plan.heap_perturb > 0 {
         "heap_layout_divergence".into()
+    } else if plan.log_level.is_some() || plan.threads.iter().flatten().any(|c| c.log_level.is_some()) {
+        // the host's `log` maximum level survived minimisation: the output depends on it
+        "log_level_divergence".into()
     } else if ncalls > 1 || faults {
         "history_divergence".into()
     } else if permuted {
@@ -374,6 +377,7 @@ impl Agg {
             ("debug_session", f.debug_session),
             ("heap_layout", f.heap_layout),
             ("clock", f.clock),
+            ("log_level", f.log_level),
         ] {
             if v > 0 {
                 Self::bump(&mut self.fault_execs, k, 1);
